@@ -266,7 +266,7 @@ class DM:
         if warped.shape[0] < self.Nout[0]:
             # need to pad
             warped = pad2d(warped, out_shape=self.Nout)
-        elif warped.shape[0] > self.Nout[1]:
+        elif warped.shape[0] > self.Nout[0]:
             warped = crop_center(warped, out_shape=self.Nout)
 
         return warped
